@@ -45,6 +45,9 @@ UNITS2 = [
     ("{0}CC({1})CCl", "two_letter_side_chain"),
     ("{0}C([H])(CC){1}", "explicit_h_after_attachment_atom"),
     ("{0}C({1})(C)C[H]", "explicit_h_last"),
+    ("{0}C([2H])(c1ccccc1)C{1}", "deuterated_styrene"),  # a labelled hydrogen is an atom of its own (RDKit does not fold it)
+    ("{0}C([2H])([2H])C{1}", "dideutero_ethylene"),
+    ("{0}CC([3H])(C){1}", "tritiated_propylene"),
     ("{0}C[C@H](C){1}", "propylene_stereo_a"),  # SI.md tacticity examples: bracket attachment atom with a stereo mark
     ("{0}C[C@@H](C){1}", "propylene_stereo_b"),
     ("{0}[C@H](C)C{1}", "stereo_attachment_first"),
@@ -72,7 +75,7 @@ ENDS = [
     ("{0}[H]", "H"), ("{0}C", "methyl"), ("{0}O", "hydroxyl"), ("{0}CO", "methylol"), ("{0}N(C)C", "dimethylamino"),
     ("{0}F", "fluoro"), ("{0}Br", "bromo"), ("{0}Cl", "chloro"), ("{0}C(C)(C)C", "tbutyl"), ("{0}c1ccccc1", "phenyl"),
     ("{0}[Si](C)(C)C", "tms"), ("{0}C#N", "cyano"), ("CC{0}", "ethyl_tail"), ("OC{0}", "methylol_tail"),
-    ("C(C)(C){0}", "isopropyl_tail"), ("{0}S", "thiol"), ("{0}C(=O)O", "acid"),
+    ("C(C)(C){0}", "isopropyl_tail"), ("{0}S", "thiol"), ("{0}C(=O)O", "acid"), ("{0}[2H]", "deuterium"), ("{0}C([2H])([2H])[2H]", "cd3"),
 ]
 PLAIN = ["CC", "OC", "NC", "[H]", "C", "F", "N#CC(C)(C)", "CCOC(=O)C(C)(C)", "c1ccccc1C", "C(C)C", "O", "Br", "CS"]
 PLAIN_SUFFIX = ["CC", "CO", "CN", "[H]", "C", "F", "Br", "C(C)(C)C#N", "Cc1ccccc1", "[Si](C)(C)C", "O", "Cl"]
